@@ -8,8 +8,10 @@ correspond : generated module graphs are written as real files and evaluated, re
              it is), the model with one or more known defects repaired, and the specification S on the
              same text.
 oracle     : S (per-module environments, modifiers composed, every body evaluated exactly once per engine).
-             real != S is a VIOLATION unless real == M and repairing exactly the defects of open findings
-             of KNOWN_FINDINGS.txt turns M into S on that input.
+             real != S is a VIOLATION unless real == M and switching M to the behaviour S asks for in
+             exactly the points that are open findings of KNOWN_FINDINGS.txt turns M into S on that input.
+             Two defects found by this check were fixed in /repo (d10f8017, 1587f6f5); their witnesses
+             (corpus d01-d04) must equal S now and are VIOLATIONs if they come back.
 """
 import itertools
 import os
@@ -27,25 +29,29 @@ META = {
                  "induction over all acyclic module graphs and all request sequences + correspondence of the "
                  "model with one real Engine per generated module tree",
     "level_text": "Theorems of SteelVerif/C14/Props.lean, for every acyclic module graph, every combination of "
-                  "only-in / prefix-in / renaming modifiers and every sequence of evaluation requests: the "
-                  "mangled name \"##mm\"+id+\"__%#__\"+name determines (id, name), is never a source identifier, "
-                  "and private names of different modules never collide; a required name is bound iff it is "
-                  "provided and survives the modifiers (with prefix and alias applied), and flattening the "
-                  "modifiers agrees with composing them on the documented forms; a module body is evaluated "
-                  "at most once per engine for every request sequence, and exactly once when a successful "
-                  "request needs it provided no earlier request failed (and unconditionally for the repaired "
-                  "roll-back).  The model is hand-written; it is tied to crates/steel-core/src/compiler/modules.rs "
-                  "on every run by evaluating generated module trees (diamonds, chains, shared private and "
-                  "provided names, all modifier nestings, contracts, failing requests, several request orders) "
-                  "on a real Engine and comparing bindings, module-internal views, error kinds and "
-                  "instantiation counters line by line.",
+                  "only-in / prefix-in / renaming modifiers and every sequence of evaluation requests (failing "
+                  "ones included): the mangled name \"##mm\"+id+\"__%#__\"+name determines (id, name), is never "
+                  "an identifier that does not begin with ##, and private names of different modules never "
+                  "collide, so a module body and a requiring program only ever write their own keys of the "
+                  "global table; a required name is bound iff it is provided and survives the modifiers (with "
+                  "prefix and alias applied), prefixes concatenate outer-first, and flattening the modifiers "
+                  "agrees with composing them on the documented forms (witnesses of disagreement elsewhere); a "
+                  "module body is evaluated at most once per engine, and exactly once as soon as a request that "
+                  "gets as far as running needs it, whatever failed before. The model is hand-written; it is "
+                  "tied to crates/steel-core/src/compiler/modules.rs on every run by evaluating generated module "
+                  "trees (diamonds, chains, shared private and provided names, all modifier nestings, "
+                  "contract/out, re-exports, failing requests, several request orders) on a real Engine and "
+                  "comparing bindings, module-internal views, error kinds, instantiation counters and the real "
+                  "location of every private define (prefix ++ name) line by line.",
     "level_note": "Trusted: Lean kernel (axioms propext, Classical.choice, Quot.sound only), harness/driver/"
                   "comparison, the file system (module files do not change while an engine lives). Macros and "
-                  "for-syntax provides/requires, built-in and resolver modules, unused-import pruning and the "
-                  "contract combinators themselves are exercised only through the generated programs, not "
-                  "modelled. Open findings: the two failure paths roll back different halves of the module "
-                  "state; contract/out imports under a prefix or alias are defined unmangled; modifiers are "
-                  "flattened instead of composed.",
+                  "for-syntax provides/requires, built-in and resolver modules and the contract combinators "
+                  "themselves are exercised only through the generated programs, not modelled; unused-import "
+                  "pruning is modelled only as far as it decides which module tables a body refers to. Open "
+                  "findings: K14c modifiers are flattened instead of composed (by design), K14d a mangled name "
+                  "can be written as |##mm...| (the lexical hypothesis of mangle_not_user_writable is false for "
+                  "escaped identifiers). Fixed by this check: d10f8017 (roll-back of table and metadata), "
+                  "1587f6f5 (contract/out imports mangled).",
 }
 
 VAL_NAMES = ["x", "y", "z", "w", "p"]
@@ -55,11 +61,14 @@ PREFIXES = ["a.", "b-", "q."]
 VAL_ALIASES = ["xx", "yy", "r1"]
 FN_ALIASES = ["ff", "g2"]
 
-# model switches of the driver: one per open finding (see KNOWN_FINDINGS.txt / findings/C14-*.txt)
+# model switches of the driver that move M towards S, one per open finding (KNOWN_FINDINGS.txt)
 FIXES = {
-    "K14a": ("r", "rollback_mismatch_after_failed_request"),
-    "K14b": ("c", "contract_import_renamed_is_global"),
     "K14c": ("m", "require_modifiers_flattened_not_composed"),
+}
+# defects that were fixed in /repo: the driver can re-introduce them, to name a regression
+LEGACY = {
+    "R": "the roll-back defect fixed by d10f8017 (finding K14a, corpus d01/d02)",
+    "C": "the unmangled contract/out imports fixed by 1587f6f5 (finding K14b, corpus d03/d04)",
 }
 
 
@@ -372,6 +381,11 @@ def classify(ctx, cid, text, real, variants, known_ids):
     if r == spec:
         return ("agree", "") if same_as_model(variants[""]) else ("model-differs", "real == S but the model says otherwise")
     if not same_as_model(variants[""]):
+        for key, what in LEGACY.items():
+            m = variants.get(key)
+            if m is not None and ((r[:m.index("undetermined")] == m[:m.index("undetermined")])
+                                  if "undetermined" in m else r == m):
+                return "regression", "real differs from S and equals the model with %s re-introduced" % what
         return "unexplained", "real differs from S and from the model of the code"
     # real == M != S: which repairs turn M into S?
     flags = "".join(f for f, _ in FIXES.values())
@@ -392,7 +406,7 @@ def first_diff(a, b):
     return "length %d vs %d" % (len(a), len(b))
 
 
-VARIANT_KEYS = [""] + ["".join(c) for n in range(1, 4) for c in itertools.combinations("cmr", n)]
+VARIANT_KEYS = ["", "m", "R", "C"]
 
 
 def evaluate(ctx, texts, label, stats, known_ids):
@@ -407,7 +421,7 @@ def evaluate(ctx, texts, label, stats, known_ids):
     alltext = "".join(el_cases)
     variants = {}
     for key in VARIANT_KEYS + ["spec"]:
-        mode = "spec" if key == "spec" else ("model" if key == "" else "fixed:" + key)
+        mode = "spec" if key == "spec" else ("model" if key == "" else "variant:" + key)
         rc, out, err = driver(mode, alltext)
         if rc != 0:
             ctx.violation("C14-driver-failed.txt", "c14driver %s: rc=%d\n%s" % (mode, rc, err[-2000:]), no_input=True)
